@@ -189,6 +189,7 @@ type world struct {
 	inTeardown bool
 	diverged   int // explicit labels that could not be executed as recorded
 	twoArm     int // receives of the monitor with more than one ready arm
+	divergedAt string
 	tokens     map[int]dials.CfgSerial[Cfg]
 
 	steps  []string // printed (label, obs) pairs
@@ -909,6 +910,9 @@ func (w *world) replay(ls []label) {
 		}
 		if !w.applicable(l) {
 			w.diverged++
+			if w.divergedAt == "" {
+				w.divergedAt = l.coq()
+			}
 			continue
 		}
 		w.do(l)
